@@ -871,6 +871,8 @@ class DAE:
         else:
             # create a new npz file and write for the first time
             if self._write_append is False:
+                # `txyz` is unpacked automatically on its first access only
+                self.ts.unpack()
                 txyz_data = self.ts.txyz[ts.idx_ptr:, :]
                 np.savez_compressed(file_path, data=txyz_data)
                 self._write_append = True
